@@ -1256,16 +1256,37 @@ theorem triangular_affine_gen_layer {n : ℕ} {C : Type} (lower : Bool) (raw : L
     NetMass.VLayer n (TriGen.toBij (TriGen.unwrap (TriGen.ofRaw lower raw arr loc)) : Bij (List ℝ) C ℝ) c :=
   NetMass.triangular_gen_ofRaw_vlayer lower raw arr loc hsq hr hl c
 
+/-- `WeightNormalization.unwrap` (GENERATED, `Gen/Wrappers.lean`: row `i` becomes `scaleᵢ · rowᵢ / ‖rowᵢ‖`) keeps a triangular matrix
+with non-zero diagonal triangular with non-zero diagonal, for all non-zero scales -/
+theorem weightnorm_triangular {n : ℕ} {t : Tri.TriAffine ℝ} (h : TriPf.TriWF n t) (sc : List ℝ) (hs : sc.length = n)
+    (hne : ∀ i < n, sc.getD i 0 ≠ 0) :
+    TriPf.TriWF n ⟨(⟨t.triangular, sc⟩ : Wr.WeightNormalization ℝ).unwrap, t.loc, t.lower⟩ :=
+  TriPf.weightnorm_triWF h sc hs hne
+
+/-- the matrix `triangular_spline_flow` builds — `_to_triangular(softplus(raw diagonal), arr)` wrapped in `WeightNormalization`
+with scales `softplus(raw scale)` — is `TriWF` for EVERY raw diagonal, every square `arr`, every raw scale, every `loc` -/
+theorem weightnorm_triangular_of_raw {n : ℕ} (lower : Bool) (raw : List ℝ) (arr : List (List ℝ)) (loc : List ℝ)
+    (hsq : TriPf.Square n arr) (hr : raw.length = n) (hl : loc.length = n) (sraw : List ℝ) (hs : sraw.length = n) :
+    TriPf.TriWF n ⟨(⟨Params.triangularOfRaw lower raw arr, sraw.map fun r => (Params.softplusRaw r).unwrap⟩ :
+      Wr.WeightNormalization ℝ).unwrap, loc, lower⟩ := by
+  refine TriPf.weightnorm_triWF (t := Tri.ofRaw lower raw arr loc) (TriPf.ofRaw_wf lower raw arr loc hsq hr hl) _
+    (by simpa using hs) fun i hi => ?_
+  have hi' : i < sraw.length := by omega
+  simp only [List.getD_eq_getElem?_getD, List.getElem?_map, List.getElem?_eq_getElem hi', Option.map_some, Option.getD_some]
+  exact (ParamsPf.softplusRaw_pos _).ne'
+
 /-- the layer key of a layer built from RAW parameters satisfies `TriSplineOK`: any `tanh_max_val > 0`, `dim` splines built by the
-constructor from any raw rows (any accepted configuration: knots ≥ 1, interval), the triangular matrix built from any raw
-diagonal (through softplus), any square `arr`, any `loc`, and any `dim × cond_dim` matrix or none -/
+constructor from any raw rows (any accepted configuration: knots ≥ 1, interval), the weight-normalised triangular matrix built
+from any raw diagonal (through softplus), any square `arr`, any raw row scales, any `loc`, and any `dim × cond_dim` matrix or none -/
 theorem tri_spline_net_of_raw (dim : ℕ) {m : ℝ} (hm : 0 < m) {cfg : RqsCfg ℝ} {init : List ℝ} (hcfg : RqsCfgOK cfg init)
     (rows : List (List ℝ)) (hrows : rows.length = dim) (lower : Bool) (raw : List ℝ) (arr : List (List ℝ)) (loc : List ℝ)
-    (hsq : TriPf.Square dim arr) (hr : raw.length = dim) (hl : loc.length = dim) (W : Option (List (List ℝ)))
-    (hW : ∀ W', W = some W' → W'.length = dim) :
-    TriSplineOK dim m ⟨rows.map (rqsSpline cfg init), Tri.ofRaw lower raw arr loc, W⟩ :=
-  ⟨hm, by simpa using hrows, fun s hs => by obtain ⟨row, _, rfl⟩ := List.mem_map.mp hs; exact rqsFamily_wf hcfg row,
-    TriPf.ofRaw_wf lower raw arr loc hsq hr hl, hW⟩
+    (hsq : TriPf.Square dim arr) (hr : raw.length = dim) (hl : loc.length = dim) (sraw : List ℝ) (hs : sraw.length = dim)
+    (W : Option (List (List ℝ))) (hW : ∀ W', W = some W' → W'.length = dim) :
+    TriSplineOK dim m ⟨rows.map (rqsSpline cfg init),
+      ⟨(⟨Params.triangularOfRaw lower raw arr, sraw.map fun r => (Params.softplusRaw r).unwrap⟩ :
+        Wr.WeightNormalization ℝ).unwrap, loc, lower⟩, W⟩ :=
+  ⟨hm, by simpa using hrows, fun s hs' => by obtain ⟨row, _, rfl⟩ := List.mem_map.mp hs'; exact rqsFamily_wf hcfg row,
+    weightnorm_triangular_of_raw lower raw arr loc hsq hr hl sraw hs, hW⟩
 
 /-- **`tri_spline_layer`**: EVERY layer of `triangular_spline_flow` — any `dim`, any `tanh_max_val > 0`, any well-formed splines
 (any knots), any triangular matrix with non-zero diagonal, conditional or not (`TriSplineOK`), before and after the default
